@@ -1147,6 +1147,10 @@ class IntFlag(Adapter):
     def decode(self, val: Any, ctx: Optional[ParseContext], pod: bool = False) -> Any:
         if pod:
             return dtypes.flags_to_pod(self.flag_cls, val)
+        # Negative values from signed fields can't be represented by the flag class
+        # without losing the sign, keep them as plain integers.
+        if val < 0:
+            return val
         return self.flag_cls(val)
 
     def default_value(self) -> Any:
